@@ -666,6 +666,13 @@ def long_recipes():
         out.append({'cls': 'CNF', 'tag': 'long', 'steps': [['nv', 8]] + cl})
         out.append({'cls': 'OPB', 'tag': 'long', 'steps': [['nv', 8]] + cl})
         out.append({'cls': 'OPB', 'tag': 'long', 'steps': [['nv', 8]] + con})
+    # wide rows: more literals / terms than a line of a page holds (12, 13, 14, 26, 60)
+    for w in (12, 13, 14, 26, 60):
+        lits = [(j + 1) if j % 3 else -(j + 1) for j in range(w)]
+        out.append({'cls': 'CNF', 'tag': 'wide', 'steps': [['nv', w], ['cl', lits], ['cl', [1, -2]], ['cl', lits[::-1]]]})
+        out.append({'cls': 'OPB', 'tag': 'wide', 'steps': [['nv', w], ['cl', lits],
+                                                         ['con', [[1 + j % 4, l] for j, l in enumerate(lits)], '>=', w // 2],
+                                                         ['con', [[2, l] for l in lits], '==', w]]})
     # sizes around typical buffer/block sizes of a writer (1024, 4096): a
     # writer that flushes in blocks must not repeat or drop rows
     for m in (1023, 1024, 1025, 4097):
